@@ -359,6 +359,7 @@ next:
 			lr.R = i
 			lr.N = n
 			n, err = io.Copy(w, lr)
+			full = n + lr.N + 2 // a failing writer may have accepted fewer bytes than were read: only lr.N payload bytes are still unread
 			lr.R = nil
 			lrs.Put(lr)
 		} else if typ == typeChunk {
